@@ -65,6 +65,36 @@ func (m *Machine) fval(l *sym.Lin, exact bool) Value {
 	return &FSym{L: m.ctx.ToReal(l), Exact: exact}
 }
 
+// relBracket adds the relative-error bracket of one IEEE rounding of the real
+// value l into r: |r - l| <= 2^-53 |l| (no result is assumed subnormal), which
+// is linear once the sign of l is split, plus the redundant sign facts that
+// keep products compared with zero linear.
+func (m *Machine) relBracket(l, r *sym.Lin) {
+	c := m.ctx
+	lo := c.Scale(l, oneMinusU)
+	hi := c.Scale(l, onePlusU)
+	z := c.Const(sym.SReal, new(big.Rat))
+	pos := c.AndN([]*sym.Bool{c.Le(z, l), c.Le(lo, r), c.Le(r, hi)})
+	neg := c.AndN([]*sym.Bool{c.Le(l, z), c.Le(hi, r), c.Le(r, lo)})
+	c.Side = append(c.Side, c.Or(pos, neg),
+		c.Or(c.Not(c.Lt(z, l)), c.Lt(z, r)),
+		c.Or(c.Not(c.Lt(l, z)), c.Lt(r, z)),
+		c.Or(c.Not(c.Eq0(l)), c.Eq0(r)))
+}
+
+var oneMinusU = new(big.Rat).Sub(sym.R(1), ulpHalf)
+var onePlusU = new(big.Rat).Add(sym.R(1), ulpHalf)
+
+func widen(lo, hi *big.Rat) (*big.Rat, *big.Rat) {
+	w := func(x *big.Rat, up bool) *big.Rat {
+		if (x.Sign() >= 0) == up {
+			return new(big.Rat).Mul(x, onePlusU)
+		}
+		return new(big.Rat).Mul(x, oneMinusU)
+	}
+	return w(lo, false), w(hi, true)
+}
+
 // roundF models one IEEE rounding of the real value l.
 func (m *Machine) roundF(l *sym.Lin) Value {
 	l = m.ctx.ToReal(l)
@@ -75,18 +105,12 @@ func (m *Machine) roundF(l *sym.Lin) Value {
 	if l.IntegerValued() && within53(l) {
 		return &FSym{L: l, Exact: true}
 	}
-	ma := maxAbs(l)
-	if ma == nil {
-		m.unsupported("float rounding of unbounded term")
+	var lo, hi *big.Rat
+	if l.Lo != nil && l.Hi != nil {
+		lo, hi = widen(l.Lo, l.Hi)
 	}
-	eps := new(big.Rat).Mul(ma, ulpHalf)
-	// subnormal floor: absolute error at least 2^-1075
-	lo := new(big.Rat).Sub(l.Lo, eps)
-	hi := new(big.Rat).Add(l.Hi, eps)
 	r := m.FreshReal("fr", lo, hi)
-	c := m.ctx
-	e := c.Const(sym.SReal, eps)
-	c.Side = append(c.Side, c.Le(c.Sub(l, e), r), c.Le(r, c.Add(l, e)))
+	m.relBracket(l, r)
 	m.res.Approx = true
 	m.nRound++
 	return &FSym{L: r, Exact: false}
@@ -96,28 +120,23 @@ func (m *Machine) intToFloat(x *sym.Lin) Value {
 	if within53(x) {
 		return &FSym{L: m.ctx.ToReal(x), Exact: true}
 	}
-	ma := maxAbs(x)
-	if ma == nil {
+	if x.Lo == nil || x.Hi == nil {
 		m.unsupported("int->float of unbounded term")
 	}
-	eps := new(big.Rat).Mul(ma, ulpHalf)
 	c := m.ctx
 	xr := c.ToReal(x)
-	lo := new(big.Rat).Sub(x.Lo, eps)
-	hi := new(big.Rat).Add(x.Hi, eps)
+	lo, hi := widen(x.Lo, x.Hi)
 	r := m.FreshReal("fi", lo, hi)
-	e := c.Const(sym.SReal, eps)
+	m.relBracket(xr, r)
 	one := c.ConstI(1)
 	mone := c.ConstI(-1)
 	rone := c.Const(sym.SReal, sym.R(1))
 	rmone := c.Const(sym.SReal, sym.R(-1))
 	inExact := c.And(c.Le(c.Const(sym.SInt, negTwo53), x), c.Le(x, c.Const(sym.SInt, two53)))
 	c.Side = append(c.Side,
-		c.Le(c.Sub(xr, e), r), c.Le(r, c.Add(xr, e)),
-		// rounding is monotone and -1, 0, 1 are representable
+		// rounding is monotone and -1, 1 are representable
 		c.Or(c.Not(c.Le(one, x)), c.Le(rone, r)),
 		c.Or(c.Not(c.Le(x, mone)), c.Le(r, rmone)),
-		c.Or(c.Not(c.Eq0(x)), c.Eq0(r)),
 		// exact within 2^53
 		c.Or(c.Not(inExact), c.Eq(r, xr)),
 	)
